@@ -12,6 +12,7 @@ import (
 	"verif/ref"
 	"verif/schema"
 	"verif/wire"
+	"verif/zoo"
 )
 
 func init() {
@@ -70,11 +71,20 @@ func runC14(c *harness.Ctx, idx int) {
 				t = schema.PtrTo(t)
 				req = schema.Optional
 			}
-			s.Fields = append(s.Fields, &schema.Field{ID: uint16(1 + i*3 + r.Intn(3)), Req: req, T: t, NoCopy: f.nocopy})
+			nf := &schema.Field{ID: uint16(1 + i*3 + r.Intn(3)), Req: req, T: t, NoCopy: f.nocopy}
+			if f.nocopy && r.Chance(1, 3) {
+				// the option declared through the fallback thrift tag (name first), no frugal tag
+				tag := schema.TagFor(nf)
+				nf.Tag = `thrift:"fld` + fmt.Sprint(i) + `,` + tag[len(`frugal:"`):]
+			}
+			s.Fields = append(s.Fields, nf)
 		}
 		s.Fields = append(s.Fields, &schema.Field{ID: 40, Req: schema.Default, T: schema.ListOf(schema.Scalar(schema.String))})
 		s.GoOrder = r.Perm(len(s.Fields))
 		s.Build()
+	} else if idx%16 == 2 {
+		// nocopy fields with declared (non-empty) defaults, in structs the decoder creates
+		s = gen.Zoo([]interface{}{&zoo.DefsNCHolder{}, &zoo.DefsNC{}}[r.Intn(2)])
 	} else {
 		s = gen.RandomStruct(r, tc, 0)
 	}
@@ -114,67 +124,71 @@ func runC14(c *harness.Ctx, idx int) {
 		return
 	}
 	// locate every nocopy field occurrence and check its view
-	var extents []ncExtent
-	walkUnaligned = 0
 	nonEmptyNC, ordinary := 0, 0
 	lens := ""
-	walkBoth(s, dst.Elem(), pr.Root, msg, "", func(st *schema.Struct, sv reflect.Value, n *wire.Node, path string) {
-		for _, f := range st.Fields {
-			if f.T.K != schema.String && f.T.K != schema.Binary {
-				continue
-			}
-			fn := fieldNode(n, f)
-			if fn == nil {
-				continue
-			}
-			if !f.NoCopy {
-				ordinary++
-				continue
-			}
-			fv := sv.Field(f.Index)
-			if f.T.Ptr {
-				if fv.IsNil() {
-					c.Violation("nil", "C14/ptr-nil", "optional nocopy field %s.%d present in the message but nil after decoding", path, f.ID)
+	viewCheck := func(root reflect.Value, rootNode *wire.Node, msg []byte, lo, hi uintptr, which string) []ncExtent {
+		var extents []ncExtent
+		walkBoth(s, root, rootNode, msg, "", func(st *schema.Struct, sv reflect.Value, n *wire.Node, path string) {
+			for _, f := range st.Fields {
+				if f.T.K != schema.String && f.T.K != schema.Binary {
 					continue
 				}
-				fv = fv.Elem()
-			}
-			off, l := fn.V.Start+4, fn.V.Count
-			lens += fmt.Sprint(lenClass(l), ",")
-			var data uintptr
-			capacity := l
-			if f.T.K == schema.Binary {
-				data = fv.Pointer()
-				capacity = fv.Cap()
-			} else {
-				str := fv.String()
-				data = uintptr(unsafe.Pointer(unsafe.StringData(str)))
-			}
-			if fv.Len() != l {
-				c.Violation("len", "C14/len", "nocopy field %s.%d has len %d, value has %d bytes", path, f.ID, fv.Len(), l)
-				continue
-			}
-			if l == 0 {
-				if data >= lo && data <= hi && data != 0 {
-					c.Violation("empty-aliases", "C14/empty-aliases-buffer", "zero-length nocopy field %s.%d points into the input buffer (offset %d)", path, f.ID, data-lo)
+				fn := fieldNode(n, f)
+				if fn == nil {
+					continue
 				}
-				continue
-			}
-			nonEmptyNC++
-			if data != lo+uintptr(off) {
-				if data >= lo && data < hi {
-					c.Violation("view", "C14/view-offset", "nocopy field %s.%d views buffer offset %d, its value is at %d", path, f.ID, data-lo, off)
+				if !f.NoCopy {
+					ordinary++
+					continue
+				}
+				fv := sv.Field(f.Index)
+				if f.T.Ptr {
+					if fv.IsNil() {
+						c.Violation("nil", "C14/ptr-nil", "%soptional nocopy field %s.%d present in the message but nil after decoding", which, path, f.ID)
+						continue
+					}
+					fv = fv.Elem()
+				}
+				off, l := fn.V.Start+4, fn.V.Count
+				lens += fmt.Sprint(lenClass(l), ",")
+				var data uintptr
+				capacity := l
+				if f.T.K == schema.Binary {
+					data = fv.Pointer()
+					capacity = fv.Cap()
 				} else {
-					c.Violation("view", "C14/not-a-view", "nocopy field %s.%d (len %d) does not view the input buffer", path, f.ID, l)
+					str := fv.String()
+					data = uintptr(unsafe.Pointer(unsafe.StringData(str)))
 				}
-				continue
+				if fv.Len() != l {
+					c.Violation("len", "C14/len", "%snocopy field %s.%d has len %d, value has %d bytes", which, path, f.ID, fv.Len(), l)
+					continue
+				}
+				if l == 0 {
+					if data >= lo && data <= hi && data != 0 {
+						c.Violation("empty-aliases", "C14/empty-aliases-buffer", "%szero-length nocopy field %s.%d points into the input buffer (offset %d)", which, path, f.ID, data-lo)
+					}
+					continue
+				}
+				nonEmptyNC++
+				if data != lo+uintptr(off) {
+					if data >= lo && data < hi {
+						c.Violation("view", "C14/view-offset", "%snocopy field %s.%d views buffer offset %d, its value is at %d", which, path, f.ID, data-lo, off)
+					} else {
+						c.Violation("view", "C14/not-a-view", "%snocopy field %s.%d (len %d) does not view the input buffer", which, path, f.ID, l)
+					}
+					continue
+				}
+				if capacity != l {
+					c.Violation("cap", "C14/spare-capacity", "%snocopy binary field %s.%d has len %d but cap %d: spare capacity exposes the buffer beyond the value", which, path, f.ID, l, capacity)
+				}
+				extents = append(extents, ncExtent{off, off + l})
 			}
-			if capacity != l {
-				c.Violation("cap", "C14/spare-capacity", "nocopy binary field %s.%d has len %d but cap %d: spare capacity exposes the buffer beyond the value", path, f.ID, l, capacity)
-			}
-			extents = append(extents, ncExtent{off, off + l})
-		}
-	})
+		})
+		return extents
+	}
+	walkUnaligned = 0
+	extents := viewCheck(dst.Elem(), pr.Root, msg, lo, hi, "")
 	c.Shape(lens)
 	c.Count("nocopy_views", int64(len(extents)))
 	if nonEmptyNC > 0 && ordinary > 0 {
@@ -235,6 +249,9 @@ func runC14(c *harness.Ctx, idx int) {
 			if d := ref.Diff(s, exp.Elem(), dst.Elem(), ref.CmpOpts{}); d != "" {
 				c.Violation("value", "C14/redecode-value/"+sig, "after a second message into the same destination the value differs from the reference decoder's: %s", d)
 			}
+			// and what the second message carried views the second buffer exactly
+			lo2 := mon.Addr(g2)
+			viewCheck(dst.Elem(), wire.Parse(msg2).Root, msg2, lo2, lo2+uintptr(len(g2)), "second decode into the same destination: ")
 			c.Count("second_decodes", 1)
 		}
 		c.Tag("variant:reused-destination")
